@@ -85,25 +85,25 @@ Proof.
 Qed.
 
 (* ---- edges ----------------------------------------------------------------- *)
-Lemma path_edges_app prev l1 l2 :
+Lemma path_edges_app {A} (prev : A) l1 l2 :
   path_edges prev (l1 ++ l2) = path_edges prev l1 ++ path_edges (last l1 prev) l2.
 Proof.
   revert prev; induction l1 as [|a l1 IH]; intros prev; [reflexivity|].
   rewrite <- app_comm_cons. cbn [path_edges]. rewrite IH, last_cons. reflexivity.
 Qed.
 
-Lemma closed_edges_cons v0 t :
+Lemma closed_edges_cons {A} (v0 : A) t :
   closed_edges (v0 :: t) = (v0, last t v0) :: path_edges v0 t.
 Proof. unfold closed_edges. rewrite last_cons. reflexivity. Qed.
 
-Lemma closed_edges_any poly d :
+Lemma closed_edges_any {A} (poly : list A) d :
   poly <> [] -> closed_edges poly = path_edges (last poly d) poly.
 Proof.
   destruct poly as [|v0 t]; [congruence|]. intros _. unfold closed_edges.
   f_equal. apply last_indep. congruence.
 Qed.
 
-Lemma closed_edges_app l1 l2 d :
+Lemma closed_edges_app {A} (l1 l2 : list A) d :
   l1 <> [] -> l2 <> [] ->
   closed_edges (l1 ++ l2) = path_edges (last l2 d) l1 ++ path_edges (last l1 d) l2.
 Proof.
@@ -113,7 +113,7 @@ Proof.
   - destruct l1; [congruence|discriminate].
 Qed.
 
-Lemma path_edges_In prev vs e :
+Lemma path_edges_In {A} (prev : A) vs e :
   In e (path_edges prev vs) ->
   In (fst e) vs /\ (snd e = prev \/ In (snd e) vs).
 Proof.
@@ -122,7 +122,7 @@ Proof.
   destruct (IH _ H) as [H1 [H2|H2]]; auto.
 Qed.
 
-Lemma closed_edges_In poly e :
+Lemma closed_edges_In {A} (poly : list A) e :
   In e (closed_edges poly) -> In (fst e) poly /\ In (snd e) poly.
 Proof.
   destruct poly as [|v0 t]; [simpl; tauto|]. unfold closed_edges. intros H.
@@ -248,7 +248,7 @@ Proof.
 Qed.
 
 (* inverting the filter gives the complement, point by point *)
-Lemma invert_complement cross poly pts :
+Lemma invert_complement (cross : pt -> pt -> pt -> bool) poly pts :
   pf_filter cross true poly pts = map negb (pf_filter cross false poly pts)
   /\ length (pf_filter cross true poly pts) = length pts
   /\ forall k p, nth_error pts k = Some p ->
@@ -472,7 +472,7 @@ Proof.
   rewrite pip_parity. unfold spec_inside. apply parity_ext_in. exact HA.
 Qed.
 
-(* ---- finite sweep: half-open rule = winding parity = leftward ray --------- *)
+(* ---- finite sweep: see Proofs/C15_sweep.v ----------------------------------- *)
 Lemma lists_of_complete {A} (xs : list A) n l :
   length l = n -> Forall (fun x => In x xs) l -> In l (lists_of n xs).
 Proof.
@@ -482,45 +482,6 @@ Proof.
     inversion Hf; subst. exists l. split; [apply IH; auto|].
     apply in_map_iff. exists a. auto.
 Qed.
-
-Definition sweep_point_ok (poly : list pt) (p : pt) : bool :=
-  on_boundary poly p
-  || (Bool.eqb (pip model_cross poly p) (winding_odd poly p)
-      && Bool.eqb (pip model_cross poly p) (pip cross_left poly p)
-      && (winding4 poly p mod 4 =? 0)%Z).
-
-Definition sweep_ok (n k : nat) : bool :=
-  forallb (fun poly => forallb (sweep_point_ok poly) (half_pts k))
-          (lists_of n (grid_pts k)).
-
-Lemma sweep_lift n k :
-  sweep_ok n k = true ->
-  forall poly p, length poly = n -> Forall (fun v => In v (grid_pts k)) poly ->
-    In p (half_pts k) -> on_boundary poly p = false ->
-    pip model_cross poly p = winding_odd poly p
-    /\ pip model_cross poly p = pip cross_left poly p
-    /\ (winding4 poly p mod 4 = 0)%Z.
-Proof.
-  intros H poly p Hl Hf Hp Hb. unfold sweep_ok in H.
-  rewrite forallb_forall in H.
-  specialize (H poly (lists_of_complete _ _ _ Hl Hf)).
-  rewrite forallb_forall in H. specialize (H p Hp).
-  unfold sweep_point_ok in H. rewrite Hb in H. simpl in H.
-  apply andb_true_iff in H. destruct H as [H H3].
-  apply andb_true_iff in H. destruct H as [H1 H2].
-  apply eqb_prop in H1. apply eqb_prop in H2. apply Z.eqb_eq in H3. auto.
-Qed.
-
-Lemma sweep_3_3 : sweep_ok 3 3 = true.
-Proof. vm_cast_no_check (eq_refl true). Qed.
-
-Lemma sweep_theorem poly p :
-  length poly = 3%nat -> Forall (fun v => In v (grid_pts 3)) poly -> In p (half_pts 3) ->
-  on_boundary poly p = false ->
-  pip model_cross poly p = winding_odd poly p
-  /\ pip model_cross poly p = pip cross_left poly p
-  /\ (winding4 poly p mod 4 = 0)%Z.
-Proof. exact (sweep_lift 3 3 sweep_3_3 poly p). Qed.
 
 (* ---- non-vacuity ---------------------------------------------------------- *)
 Definition ex_square : list pt := [(0, 0); (0, 1); (1, 1); (1, 0)].
@@ -544,16 +505,6 @@ Example ex_level :
   /\ pip model_cross ex_square (1 # 2, 0) = true
   /\ pip model_cross ex_square (1 # 2, 1) = false.
 Proof. repeat split; vm_compute; reflexivity. Qed.
-
-Example ex_sweep_domain :
-  In [(0, 0); (2, 2); (0, 2)] (lists_of 3 (grid_pts 3)) /\ In (1 # 2, 1 # 2) (half_pts 3)
-  /\ on_boundary ex_square (1 # 2, 1 # 2) = false.
-Proof.
-  split; [|split; [|vm_compute; reflexivity]].
-  - apply lists_of_complete; [reflexivity|].
-    repeat constructor; vm_compute; tauto.
-  - vm_compute. tauto.
-Qed.
 
 Example ex_invert :
   pf_filter model_cross true ex_square [(1 # 2, 1 # 2); (2, 2)] = [false; true].
